@@ -66,7 +66,7 @@ fn behaviour(stage: &str, b: &str) -> Stage {
         }
         "eof" => Stage::Eof,
         "malformed" => Stage::Raw(vec![1, 0, 0, 0, 0, 0, 4, 0xFF, 0xFF, 0, 0, 0xCD]),
-        "silent" => Stage::Silent,
+        "silent" | "silent-hb" => Stage::Silent,
         "tune-small-frame-max" => Stage::Frames(vec![tune_frame(10, 1024, 60)], false),
         "mech-none" => Stage::Frames(vec![start_frame("AMQPLAIN EXTERNAL", "en_US")], false),
         "mech-substring" => Stage::Frames(vec![start_frame("XPLAIN PLAINX", "en_US")], false),
@@ -107,7 +107,7 @@ fn expected(stage: &str, b: &str, timeout: bool, external: bool) -> Vec<&'static
         // (InvalidCredentials is for a connection *dropped* while waiting for the reply to
         // StartOk; everything else keeps its own cause there too)
         "malformed" => vec!["Err(MalformedFrame)"],
-        "silent" => {
+        "silent" | "silent-hb" => {
             if !timeout {
                 vec!["HANG-ALLOWED"]
             } else {
@@ -163,6 +163,10 @@ impl Scenario for Hs {
             }
         }
         v.push(json!({"stage": "open", "b": "normal", "timeout": true, "auth": "plain", "info": false, "faults": true}));
+        // silence with a configured timeout (1.5 s) while a negotiated heartbeat of 1 s is running
+        v.push(json!({"stage": "open", "b": "silent-hb", "timeout": true, "auth": "plain", "info": false, "hb": 1}));
+        v.push(json!({"stage": "open", "b": "silent-hb", "timeout": true, "auth": "plain", "info": false, "hb": 2}));
+        v.push(json!({"stage": "startok", "b": "silent-hb", "timeout": true, "auth": "plain", "info": false, "hb": 1}));
         // every cut of a correct server's stream: the read stops there (would-block) and goes on
         // with the next delivery; and the stream ending there, seen in the same read pass as the
         // last byte or in a later one
@@ -226,13 +230,14 @@ impl Scenario for Hs {
             cfg.crash_with_last_byte = p["same_pass"] == true;
         }
         let timeout = p["timeout"] == true;
+        let hb = p["hb"].as_u64().unwrap_or(0) as u16;
         let auth = p["auth"].as_str().unwrap().to_string();
         let info = p["info"] == true;
         Built {
             broker: Box::new(broker),
             cfg,
             root: Box::new(move |ctx: Ctx| {
-                let mut options = ConnectionOptions::<Auth>::default().virtual_host("vh/1").heartbeat(0);
+                let mut options = ConnectionOptions::<Auth>::default().virtual_host("vh/1").heartbeat(hb);
                 options = match auth.as_str() {
                     "external" => options.auth(Auth::External),
                     "custom" => options.auth(Auth::Plain { username: "us\u{e9}r".into(), password: "p\u{0}w".into() }),
@@ -332,6 +337,15 @@ impl Scenario for Hs {
         if o.io_existed && (!o.io_gone || !o.transport_dropped) {
             v.push(("handshake:not-released".into(), format!("io_gone={} transport_dropped={}", o.io_gone, o.transport_dropped)));
         }
+        // a timeout happens when the configured time has passed since the server was last heard
+        // from (everything before the silence happens at virtual time 0), not later
+        if matches!(b, "silent" | "silent-hb") && p["timeout"] == true {
+            let ms = 1_000_000u64;
+            match o.io_exit_time_ns {
+                Some(t) if t >= 1500 * ms && t <= 1510 * ms => {}
+                other => v.push(("handshake:timeout-instant".into(), format!("server silent from 0 ms, configured timeout 1500 ms: the attempt ended at {:?} ms", other.map(|t| t / ms)))),
+            }
+        }
         // frames written, strictly in reaction
         let (envs, rest) = wire_frames(o);
         if rest != 0 {
@@ -389,7 +403,8 @@ impl Scenario for Hs {
                     }
                 }
                 Some(AMQPFrame::Method(0, AMQPClass::Connection(pconnection::AMQPMethod::TuneOk(t)))) => {
-                    if (t.channel_max, t.frame_max, t.heartbeat) != (2047, 131072, 0) {
+                    let hb = p["hb"].as_u64().unwrap_or(0) as u16;
+                    if (t.channel_max, t.frame_max, t.heartbeat) != (2047, 131072, if hb == 0 { 0 } else { hb.min(60) }) {
                         v.push(("handshake:tune-ok".into(), format!("{:?}", t)));
                     }
                 }
